@@ -53,8 +53,25 @@ type RuleStat struct {
 
 // Ctx is the loaded program plus the obligation log.
 type Ctx struct {
-	parseDegreeFolded  bool // note.ParseDegree was decided on its spelling domain (rules_wire.go)
-	addDegreeFolded    bool
+	parseDegreeFolded     bool // note.ParseDegree was decided on its spelling domain (rules_wire.go)
+	addDegreeFolded       bool
+	hiddenStateChecked    bool
+	diatonicViaAPI        map[string]bool                       // name tables read off Triads() / Sevenths() themselves (rules_tab2.go)
+	scalesFolded          bool                                  // op.NewScale was decided on all 42 key spellings (rules_codec.go)
+	pkgInits              map[*ssa.Package]map[*ssa.Global]fval // folded package initialisers (fold.go)
+	initPoisoned          map[*MapV]bool
+	syllableConvertFolded bool
+	genAttrsFolded        bool
+	marshalWrap           map[*ssa.Function]int
+	diatonicPaired        map[string]bool
+	scaleDegreeFold       *foldVerdict
+	parseKeyFold          *foldVerdict
+	degreeConvertFolded   bool
+	repoFuncsCache        []*ssa.Function
+	decodedInsideCache    map[*types.Named]bool
+	// wants: an obligation of this rule with this construct key bears on one of the properties being checked (expensive
+	// decisions are skipped when nobody asks for them)
+	wants              func(rule, key string) bool
 	degreeSearchFolded bool                                     // op.ScaleNote.GetDegree was decided on its whole domain (rules_wire.go)
 	globalRaw          map[*ssa.Global]Val                      // consteval values of immutable globals (fold.go)
 	callersOf          map[*ssa.Function]map[*ssa.Function]bool // static callers (rules_c09.go ownerName)
@@ -240,7 +257,49 @@ func (c *Ctx) fn(pkgrel, name string) *ssa.Function {
 	if f, ok := c.renamed[pkgrel+"|"+name]; ok {
 		return f
 	}
-	return c.fnBySignature(pkgrel, name)
+	if f := c.fnBySignature(pkgrel, name); f != nil {
+		return f
+	}
+	// a method that became a package function of the same name (or changed the type it hangs on), same parameters
+	// and results: the one function of that name in the package
+	want, ok := anchorSigs[pkgrel+"|"+name]
+	_, meth := splitRecv(name)
+	sp := c.ssapkg(pkgrel)
+	if !ok || sp == nil || meth == "" {
+		return nil
+	}
+	tail := want[strings.Index(want, "("):]
+	var cands []*ssa.Function
+	consider := func(f *ssa.Function) {
+		if f == nil || len(f.Blocks) == 0 || f.Synthetic != "" || f.Name() != meth {
+			return
+		}
+		if k := sigKey(f); k[strings.Index(k, "("):] == tail {
+			cands = append(cands, f)
+		}
+	}
+	for _, m := range sp.Members {
+		switch x := m.(type) {
+		case *ssa.Function:
+			consider(x)
+		case *ssa.Type:
+			if named, ok := x.Type().(*types.Named); ok {
+				for i := 0; i < named.NumMethods(); i++ {
+					consider(c.Prog.FuncValue(named.Method(i)))
+				}
+			}
+		}
+	}
+	if len(cands) != 1 {
+		return nil
+	}
+	f := cands[0]
+	if c.renamed == nil {
+		c.renamed = map[string]*ssa.Function{}
+	}
+	c.renamed[pkgrel+"|"+name] = f
+	funcAlias[f] = pkgrel + "." + name
+	return f
 }
 
 func splitRecv(name string) (recv, meth string) {
